@@ -58,6 +58,8 @@ type Merged struct {
 	Bounds     map[string]any
 	StrayOut   int64
 	Deaths     []string
+	Blobs      map[int][]byte
+	NShards    int
 }
 
 func envInt(name string, def int) int {
@@ -102,7 +104,7 @@ func runCheck(id, tier string) int {
 	defer os.RemoveAll(scratch)
 
 	m := &Merged{Prop: id, Tier: tier, Counters: map[string]int64{}, Outcomes: map[string]int64{},
-		Classes: map[string]*classAgg{}, Exhaustive: true, Bounds: map[string]any{}}
+		Classes: map[string]*classAgg{}, Exhaustive: true, Bounds: map[string]any{}, NShards: nw}
 	var mu sync.Mutex
 	var wg sync.WaitGroup
 	for s := 0; s < nw; s++ {
@@ -194,6 +196,12 @@ func mergeShard(m *Merged, r *ShardResult) {
 		m.Bounds[k] = v
 	}
 	m.StrayOut += r.StrayOut
+	if r.Blob != nil {
+		if m.Blobs == nil {
+			m.Blobs = map[int][]byte{}
+		}
+		m.Blobs[r.Shard] = r.Blob
+	}
 }
 
 // superviseShard runs one shard, restarting the worker (with the fatal case on a skip list)
